@@ -193,6 +193,17 @@ impl<T> MiniVec<T> {
       core::ptr::write(new_buf.cast::<Header>(), header);
     }
 
+    // the alignment is also kept in the word right in front of the elements, so that
+    // `from_raw_part(s)` can find the header of an over-aligned buffer from the element pointer
+    // alone (with the default alignment that word is `Header::alignment` itself)
+    //
+    let mirror = next_aligned(core::mem::size_of::<Header>(), alignment) - core::mem::size_of::<usize>();
+
+    #[allow(clippy::cast_ptr_alignment)]
+    unsafe {
+      core::ptr::write(new_buf.add(mirror).cast::<usize>(), alignment);
+    }
+
     self.buf = unsafe { core::ptr::NonNull::<u8>::new_unchecked(new_buf) };
   }
 
@@ -621,9 +632,10 @@ impl<T> MiniVec<T> {
     debug_assert!(!ptr.is_null());
 
     let header_size = core::mem::size_of::<Header>();
-    let aligned = next_aligned(header_size, core::mem::align_of::<T>());
 
     let p = ptr.cast::<u8>();
+    let alignment = core::ptr::read(p.sub(core::mem::size_of::<usize>()).cast::<usize>());
+    let aligned = next_aligned(header_size, alignment);
     let buf = p.sub(aligned);
 
     MiniVec {
@@ -668,9 +680,10 @@ impl<T> MiniVec<T> {
     debug_assert!(!ptr.is_null());
 
     let header_size = core::mem::size_of::<Header>();
-    let aligned = next_aligned(header_size, core::mem::align_of::<T>());
 
     let p = ptr.cast::<u8>();
+    let alignment = core::ptr::read(p.sub(core::mem::size_of::<usize>()).cast::<usize>());
+    let aligned = next_aligned(header_size, alignment);
     let buf = p.sub(aligned);
 
     debug_assert!((*buf.cast::<Header>()).len == length);
